@@ -169,9 +169,15 @@ func Decode(wire string, v interface{}) {
 		return
 	}
 	if err := json.Unmarshal([]byte(wire), v); err != nil {
-		panic(fmt.Sprintf("harness: cannot decode %s into %T: %v", wire, v, err))
+		// the generated Go type does not take the JSON value of the declared varlink type: reported with the
+		// next event (the wire values are the reference encoding of the description's own types)
+		if decodeErr == "" {
+			decodeErr = fmt.Sprintf("cannot decode %s into %T: %v", wire, v, err)
+		}
 	}
 }
+
+var decodeErr string
 func Equal(a, b interface{}) bool { return reflect.DeepEqual(norm(a), norm(b)) }
 
 // json.RawMessage values are compared as JSON, not as bytes
@@ -228,6 +234,21 @@ func Canon(b []byte) string {
 	var sb strings.Builder
 	cw(&sb, v)
 	return sb.String()
+}
+// CanonN: like Canon, but the named top-level members count as absent when they are null (a nullable
+// field may travel as null or not at all)
+func CanonN(b []byte, nullable ...string) string {
+	var m map[string]json.RawMessage
+	if len(nullable) == 0 || json.Unmarshal(b, &m) != nil || m == nil {
+		return Canon(b)
+	}
+	for _, k := range nullable {
+		if v, ok := m[k]; ok && string(bytes.TrimSpace(v)) == "null" {
+			delete(m, k)
+		}
+	}
+	nb, _ := json.Marshal(m)
+	return Canon(nb)
 }
 func cw(sb *strings.Builder, v interface{}) {
 	switch x := v.(type) {
@@ -340,6 +361,11 @@ func Open(path string) {
 }
 func Emit(m map[string]interface{}) {
 	m["ev"] = "C08"
+	m["decode_ok"] = decodeErr == ""
+	if decodeErr != "" {
+		m["decode_err"] = decodeErr
+	}
+	decodeErr = ""
 	b, _ := json.Marshal(m)
 	out.Write(append(b, '\n'))
 }
@@ -351,6 +377,7 @@ type methodPlan struct {
 	in, out    []jField
 	errName    string // error replied in mode "error" ("" if none)
 	errFields  []jField
+	bareErrs   []string // parameterless errors of the description, each replied in its own mode "error"
 	overridden bool
 	inWire     []string // wire value per in field ("" = absent optional)
 	outWire    []string
@@ -373,6 +400,7 @@ func emitProgram(i int, c *progCase, rng *rand.Rand) (string, int) {
 		}
 	}
 	var plans []methodPlan
+	bareDone := false
 	for _, m := range d.Members {
 		if m.Kind != "method" {
 			continue
@@ -392,6 +420,15 @@ func emitProgram(i int, c *progCase, rng *rand.Rand) (string, int) {
 			if fs, ok := errs["E"]; ok && len(fs) > 0 && len(fs) <= len(p.in) {
 				p.errName, p.errFields = "E", fs
 			}
+		}
+		// every error declared without parameters ("error X" / "error X ()") is replied by the first overridden method
+		if p.overridden && !bareDone {
+			for _, mm := range d.Members {
+				if mm.Kind == "error" && len(errs[mm.Name]) == 0 {
+					p.bareErrs = append(p.bareErrs, mm.Name)
+				}
+			}
+			bareDone = true
 		}
 		for _, f := range p.in {
 			p.inWire = append(p.inWire, wireValue(f.T[0], decls, rng, 0))
@@ -426,6 +463,9 @@ func emitProgram(i int, c *progCase, rng *rand.Rand) (string, int) {
 			}
 			w(")\n\t}\n")
 		}
+		for _, be := range p.bareErrs {
+			w("\tif h.Mode(%q) == \"error:%s\" {\n\t\treturn c.Reply%s(ctx)\n\t}\n", p.name, be, be)
+		}
 		for k, f := range p.out {
 			w("\tvar o%d %s\n\th.Decode(%q, &o%d)\n", k, goType(f.T[0]), p.outWire[k], k)
 		}
@@ -446,9 +486,16 @@ func emitProgram(i int, c *progCase, rng *rand.Rand) (string, int) {
 		if p.errName != "" && p.overridden {
 			modes = append(modes, "error")
 		}
-		for _, mode := range modes {
+		for _, be := range p.bareErrs {
+			modes = append(modes, "error:"+be)
+		}
+		for _, fullMode := range modes {
 			ncalls++
-			w("\t{\n\t\th.SetMode(%q, %q)\n", p.name, mode)
+			mode, bare := fullMode, ""
+			if strings.HasPrefix(fullMode, "error:") {
+				mode, bare = "error", fullMode[len("error:"):]
+			}
+			w("\t{\n\t\th.SetMode(%q, %q)\n", p.name, fullMode)
 			for k, f := range p.in {
 				w("\t\tvar a%d %s\n\t\th.Decode(%q, &a%d)\n", k, goType(f.T[0]), p.inWire[k], k)
 			}
@@ -477,7 +524,7 @@ func emitProgram(i int, c *progCase, rng *rand.Rand) (string, int) {
 			if len(p.in) == 0 {
 				w("\t\tev[\"wire_params_ok\"] = len(call.Parameters) == 0 || h.Canon(call.Parameters) == h.Canon([]byte(`{}`)) || string(call.Parameters) == \"null\"\n")
 			} else {
-				w("\t\tev[\"wire_params_ok\"] = h.Canon(call.Parameters) == h.Canon([]byte(%q))\n", inObj)
+				w("\t\tev[\"wire_params_ok\"] = h.CanonN(call.Parameters%s) == h.Canon([]byte(%q))\n", nullableArgs(p.in, p.inWire), inObj)
 			}
 			w("\t\tseen, _, sawIt := h.Seen(%q)\n\t\t_ = seen\n", p.name)
 			if p.overridden {
@@ -495,6 +542,9 @@ func emitProgram(i int, c *progCase, rng *rand.Rand) (string, int) {
 			switch {
 			case !p.overridden:
 				w("\t\tni, isNI := err.(*varlink.MethodNotImplemented)\n\t\tev[\"result_ok\"] = isNI && ni.Method == iface+\".\"+%q && reply.Error == \"org.varlink.service.MethodNotImplemented\"\n", p.name)
+			case mode == "error" && bare != "":
+				// a parameterless error: the matching generated type, whatever (empty) parameters travelled
+				w("\t\tte, isT := err.(*q.%s)\n\t\tev[\"errname\"] = %q\n\t\tev[\"result_ok\"] = isT && reply.Error == iface+\".\"+%q && (len(reply.Parameters) == 0 || string(reply.Parameters) == \"null\" || h.Canon(reply.Parameters) == h.Canon([]byte(`{}`)))\n\t\t_ = te\n", bare, bare, bare)
 			case mode == "error":
 				w("\t\tte, isT := err.(*q.%s)\n\t\tev[\"result_ok\"] = isT && reply.Error == iface+\".\"+%q", p.errName, p.errName)
 				for k, f := range p.errFields {
@@ -502,7 +552,7 @@ func emitProgram(i int, c *progCase, rng *rand.Rand) (string, int) {
 				}
 				if len(p.errFields) > 0 {
 					errObj := wireObject(p.errFields, p.inWire[:len(p.errFields)])
-					w(" && h.Canon(reply.Parameters) == h.Canon([]byte(%q))", errObj)
+					w(" && h.CanonN(reply.Parameters%s) == h.Canon([]byte(%q))", nullableArgs(p.errFields, p.inWire[:len(p.errFields)]), errObj)
 				}
 				w("\n\t\t_ = te\n")
 			default:
@@ -513,7 +563,7 @@ func emitProgram(i int, c *progCase, rng *rand.Rand) (string, int) {
 				if len(p.out) == 0 {
 					w("\t\tok = ok && (len(reply.Parameters) == 0 || string(reply.Parameters) == \"null\" || h.Canon(reply.Parameters) == h.Canon([]byte(`{}`)))\n")
 				} else {
-					w("\t\tok = ok && h.Canon(reply.Parameters) == h.Canon([]byte(%q))\n", outObj)
+					w("\t\tok = ok && h.CanonN(reply.Parameters%s) == h.Canon([]byte(%q))\n", nullableArgs(p.out, p.outWire), outObj)
 				}
 				w("\t\tev[\"result_ok\"] = ok\n")
 			}
@@ -571,6 +621,18 @@ func emitProgram(i int, c *progCase, rng *rand.Rand) (string, int) {
 	return sb.String(), ncalls
 }
 
+// names of the fields that are absent in this call and whose type is nullable only through a named type
+// (the generated struct tags omit "?T" fields themselves when empty; "x: T" with "type T ?..." travels as null)
+func nullableArgs(fs []jField, wire []string) string {
+	out := ""
+	for k, f := range fs {
+		if k < len(wire) && wire[k] == "" {
+			out += fmt.Sprintf(", %q", f.N)
+		}
+	}
+	return out
+}
+
 func wireObject(fs []jField, wire []string) string {
 	var parts []string
 	for k, f := range fs {
@@ -622,7 +684,7 @@ func cmdGen08(args []string) int {
 	texts := make([]string, len(cases))
 	dirs := make([]string, len(cases))
 	for i, c := range cases {
-		texts[i] = renderProg(c, false)
+		texts[i] = renderProg(c, "plain")
 		dirs[i] = fmt.Sprintf("p%d", i)
 	}
 	facts := genAndBuild(*work, *genBin, texts, dirs)
